@@ -37,7 +37,7 @@ pub enum FV {
 }
 
 pub const TMAX: i64 = 8210266876799;
-pub const TMIN: i64 = -8334601315200;
+pub const TMIN: i64 = -8334601228800;
 pub const T_SUB: i64 = 1790000000;
 
 pub fn hash_a() -> [u8; 32] { let mut h = [0u8; 32]; for i in 1..=32usize { h[i - 1] = ((i * 7) % 256) as u8 } h }
@@ -241,7 +241,7 @@ pub fn mirror_decode(rec: &str, bs: &[u8]) -> Pred {
                 while k < cnt {
                     if !has(pos, 40) { stop!(eof, fi, beyond) }
                     let key = u64::from_be_bytes(bs[pos..pos + 8].try_into().unwrap()); pos += 40;
-                    if !keys.insert(key) { stop!("format", fi, false) }
+                    if !keys.insert(key) { stop!("format", fi, beyond) }
                     k += 1;
                 }
             }
